@@ -106,6 +106,23 @@ CHECKS = {
             "suspension semantics are modelled (an abandoned generator = the effects up to its n-th item), not verified. "
             "cached_method raises RuntimeError when called on a temporary object (third-party behaviour, outside the property).",
             "7/C20"),
+    "C05": ("Coq theorems about a specification model of DFA.minify / DFA.to_partial(minify=True) (state selection, implicit trap, "
+            "Moore signature refinement to the coarsest finality-respecting congruence, quotient) + differential correspondence "
+            "against /repo via the extracted model and the verified language comparator",
+            "Proved for all valid DFAs (unbounded states/alphabet/word length), all 16 theorems closed under the global context: the model "
+            "always returns a DFA (the refinement fuel |Q|+1 is proved sufficient); the result is valid, over the same alphabet, accepts "
+            "exactly the source language; the Myhill-Nerode lower bound for the DFA record (complete competitors; arbitrary competitors when "
+            "no state is dead); the result is minimal among complete DFAs when complete and among all DFAs when partial (Spec/Minimal.v), "
+            "its partial flag is exact, a partial result has no dead state, minimising twice keeps the size, and the retained-name blocks are "
+            "exactly the Nerode classes of the kept states; same guarantees for to_partial(minify=True); to_partial(minify=False) is valid, "
+            "partial, language-preserving and keeps exactly the initial + reachable-and-co-accessible states. Refinement lemmas cls_k_spec / "
+            "stable_is_nerode / refine_fuel hold for any deterministic system. Model tied to the code by: result passes validation, "
+            "language equal to the source and to the model's result (verified dfa_diff), same state count, equal partition with "
+            "retain_names=True, for minify(), minify(retain_names=True), to_partial(minify=True, retain_names=both), to_partial(minify=False) "
+            "(language, size, trimness) and minify().minify(); thorough tier exhaustive over all partial DFAs with <= 3 states over 2 symbols.",
+            "Hopcroft's splitter schedule and PartitionRefinement's bookkeeping are not modelled (the partition they must reach is unique and "
+            "is what is compared).",
+            "7/C05"),
 }
 
 PENDING = {}
